@@ -267,10 +267,30 @@ battery!(head, astro_head);
 /// text of the error otherwise - not the value (that is C09 / C01 / C08). C19 (never a crash): only the outcome class of each
 /// lookup (Ok / Err / PANIC) - not the offset (that is C18). Every other property compares the full output.
 fn project(prop: &str, s: &str) -> String {
-    if prop != "C15" && prop != "C19" {
-        return s.to_string();
-    }
     let b: Vec<char> = s.chars().collect();
+    if prop != "C15" && prop != "C19" {
+        // every other property: the full output, except that the *text* of an error is C15's business - only "an error" is kept
+        let mut out = String::new();
+        let mut i = 0;
+        while i < b.len() {
+            let word_start = i == 0 || !b[i - 1].is_alphanumeric();
+            if word_start && i + 4 <= b.len() && b[i] == 'E' && b[i + 1] == 'r' && b[i + 2] == 'r' && b[i + 3] == '(' {
+                let mut depth = 0;
+                let mut j = i + 3;
+                while j < b.len() {
+                    if b[j] == '(' { depth += 1; }
+                    if b[j] == ')' { depth -= 1; if depth == 0 { j += 1; break; } }
+                    j += 1;
+                }
+                out.push_str("Err");
+                i = j;
+            } else {
+                out.push(b[i]);
+                i += 1;
+            }
+        }
+        return out;
+    }
     let mut out = String::new();
     let mut i = 0;
     let starts = |i: usize, w: &str| -> bool { let w: Vec<char> = w.chars().collect(); i + w.len() <= b.len() && b[i..i + w.len()] == w[..] };
